@@ -17,6 +17,7 @@ CONSTANTS
     MaxIap = {maxia}
     MaxIav = 1
     MaxSur = 1
+    MaxRo = 1
     MaxComps = {maxc}
     Fns = {{"one", "two", "id", "neg", "dbl", "inc", "step", "dsum", "add", "sub", "mul", "sel", "mad"}}
     UseData = TRUE
@@ -106,6 +107,41 @@ def _frame(c, pts):
     return pd.DataFrame(rows).T[list(c["vars"])]
 
 
+FLAGS = ["include_time", "include_variables", "include_parameters", "include_derived_parameters",
+         "include_derived_variables", "include_reactions", "include_surrogate_variables", "include_surrogate_fluxes",
+         "include_readouts"]
+
+
+def check_flags(m, scn, order, y, t, rnd) -> dict | None:
+    """get_args under a random combination of include_* flags returns exactly the selected groups (names as
+    partitioned by the specification, each group in declaration order) with the same values."""
+    c = scn["c"]
+    decl = [o.split(":", 1)[1] for o in order]
+    decl_sur_outs = [o for n in decl if n in c["sur"] for o in c["sur"][n]["outs"]]
+    groups = {
+        "include_time": ["time"],
+        "include_variables": list(c["vars"]),
+        "include_parameters": [n for n in decl if n in c["pars"]],
+        "include_derived_variables": [n for n in decl if n in set(scn["dynder"])],
+        "include_derived_parameters": [n for n in decl if n in set(scn["static"])],
+        "include_reactions": [n for n in decl if n in c["rxn"]],
+        "include_surrogate_variables": [o for o in decl_sur_outs if o in set(scn["survars"])],
+        "include_surrogate_fluxes": [o for o in decl_sur_outs if o in set(scn["surflux"])],
+        "include_readouts": [n for n in decl if n in c["ro"]],
+    }
+    full = m.get_args(variables=y, time=t, include_readouts=True).to_dict()
+    flags = {f: rnd.random() < 0.5 for f in FLAGS}
+    got = m.get_args(variables=y, time=t, **flags)
+    expected = [n for f in FLAGS if flags[f] for n in groups[f]]
+    if sorted(got.index) != sorted(expected):
+        return {"what": "get_args include_* flags: names", "flags": flags, "expected": sorted(expected),
+                "observed": sorted(got.index)}
+    for n in expected:
+        if not close(full[n], got[n]):
+            return {"what": "get_args include_* flags: values", "flags": flags, "name": n}
+    return None
+
+
 def observe_c01(scn: dict) -> dict | None:
     """All C01 entry points at every predicted point. Returns the first disagreement or None."""
     import pandas as pd
@@ -152,6 +188,15 @@ def observe_c01(scn: dict) -> dict | None:
                     if (v not in st.index or fl not in st.columns) and exp != 0:
                         return {"what": f"get_stoichiometries {tag}", "variable": v, "flux": fl, "expected": exp,
                                 "observed": "absent", "order": order}
+        # readouts (evaluated on demand) and the name groups selected by the include_* flags
+        e_ro = fn_to_dict(p.get("ro", {}))
+        full = m.get_args(variables=y, time=t, include_readouts=True)
+        bad = cmp_table({**e_args, **e_ro}, full.to_dict(), f"get_args(include_readouts) @t={t}")
+        if bad:
+            return {**bad, "order": order, "point": p}
+        bad = check_flags(m, scn, order, y, t, rnd)
+        if bad:
+            return {**bad, "order": order, "point": p}
         # positional form handed to integrators
         vec = m(t, [y[v] for v in c["vars"]])
         bad = cmp_vector(e_rhs, vec, f"__call__ @t={t}")
